@@ -17,6 +17,15 @@ CLAIMED = {
     design='DESIGN.md section 3 / C15'),
 }
 
+CLAIMED['C14'] = dict(
+    technique='symbolic execution of rustc MIR (M2S) + z3 bit-vector queries over symbolic UTF-8 sources; counterexamples replayed through the public lexer API',
+    text='Bounded solver verdicts over the real MIR of the span/slicing kernels of the front end: Lexer::span + to_source_span under the logos '
+         'contract (every span inside the source and on char boundaries, all valid UTF-8 sources up to the stated length), detect_invalid_input '
+         '(rejects exactly the first forbidden code point with its exact span), helpers::block_comment_length (= reference nesting counter, no '
+         'overflow). Whole-pipeline crash freedom (parser productions, resolver, decoder, encoder) is NOT claimed.',
+    note='Trusted: logos contract (0<=start<=end<=len on char boundaries), UTF-8 decoding model, z3. Kernel-level claim only; bounds in the evidence.',
+    design='DESIGN.md section 3 / C14')
+
 NOT_APPLICABLE = {
  'C01': 'validity is defined by an external 60 kLoC validator over whole-pipeline output; neither it nor the encoder can be executed symbolically here (DESIGN.md section 4)',
  'C05': 'needs wit-component as reference encoder and the validator subtype relation as comparison; out of reach of symbolic execution (DESIGN.md section 4)',
